@@ -388,11 +388,18 @@ def job_ellipsoids(ctx):
     ELL = [('Clarke1866', 6378206.4, 6356583.8), ('Bessel1841', 6377397.155, 6356078.963), ('Mars', 3396190.0, 3376200.0), ('sphere', 6371000.0, 6371000.0),
            # only ONE of the two radii differs from the defaults (WGS84 a = 6378137.0, b = 6356752.3142): both must still be honoured
            ('WGS84 a, sphere b', 6378137.0, 6378137.0), ('WGS84 a, other b', 6378137.0, 6356000.0), ('other a, WGS84 b', 6378388.0, 6356752.3142), ('WGS84 (explicit)', 6378137.0, 6356752.3142)]
+    # strongly flattened bodies whose radii the package ships (f = 0.065 and 0.098): the latitude iteration contracts by about e^2 per pass there.
+    # Tolerances 1e-6 deg / 0.1 m for them (observed on the unchanged tree: 1.2e-7 deg on Saturn, the stopping test of the iteration)
+    import ahrs.common.constants as K_
+    GIANTS = [('Jupiter', float(K_.JUPITER_EQUATOR_RADIUS), float(K_.JUPITER_POLAR_RADIUS)), ('Saturn', float(K_.SATURN_EQUATOR_RADIUS), float(K_.SATURN_POLAR_RADIUS))]
+    ELL = ELL + GIANTS
     for en, a, b in ELL:
+        giant = en in ('Jupiter', 'Saturn')
+        TL, TH = (1e-6, 0.1) if giant else (1e-7, 1e-3)
         e2 = (a * a - b * b) / (a * a)
-        for lat in (-89.0, -45.0, -10.0, 0.0, 23.5, 60.0, 90.0):
+        for lat in (-89.0, -45.0, -10.0, 0.0, 23.5, 60.0, 90.0) + ((35.0, -52.0, 75.0) if giant else ()):
             for lon in (-180.0, -75.0, 0.0, 110.0, 180.0):
-                for h in (-1000.0, 0.0, 5.0e4):
+                for h in (-1000.0, 0.0, 5.0e4) + ((-1.0e4, 1.0e6) if giant else ()):
                     key = f'ellipsoid={en} lat={lat} lon={lon} h={h}'
                     N = a / math.sqrt(1 - e2 * math.sin(math.radians(lat)) ** 2)
                     ref = np.array([(N + h) * math.cos(math.radians(lat)) * math.cos(math.radians(lon)), (N + h) * math.cos(math.radians(lat)) * math.sin(math.radians(lon)),
@@ -408,8 +415,8 @@ def job_ellipsoids(ctx):
                         for fn_name in ('ecef2geodetic', 'ecef2lla'):
                             back = np.asarray(getattr(FR, fn_name)(X[0], X[1], X[2], a, b), float)
                             dlon = ((back[1] - lon + 180.0) % 360.0 - 180.0) * math.cos(math.radians(lat)) if abs(lat) < 90 else 0.0
-                            ctx.expect(abs(back[0] - lat) <= 1e-7 and abs(dlon) <= 1e-8 and abs(back[2] - h) <= 1e-3, f'geodetic -> ECEF -> {fn_name} with explicit a, b returns the point',
-                                       key, back, [lat, lon, h], 1e-3)
+                            ctx.expect(abs(back[0] - lat) <= TL and abs(dlon) <= 1e-8 and abs(back[2] - h) <= TH, f'geodetic -> ECEF -> {fn_name} with explicit a, b returns the point',
+                                       key, back, [lat, lon, h], TH)
                         enu = np.asarray(FR.ecef2enu(X[0], X[1], X[2], lat, lon, h, a, b), float)
                         ctx.close(enu, np.zeros(3), 1e-6, 'ecef2enu(..., a, b) maps the origin to zero on that ellipsoid', key)
                         back2 = np.asarray(FR.enu2ecef(10.0, -20.0, 30.0, lat, lon, h, a, b), float)
